@@ -4,8 +4,8 @@ id=$1; shift
 checks=${@:-$id}
 wt=/tmp/seedwt_$id
 src=/tmp/seed_$id
-echo "== demo on mutated tree"; (cd $wt && /venv/bin/python -B $src/demo.py >/tmp/seed_$id.demo_mut.log 2>&1; echo "exit $?")
-echo "== demo on clean tree"; (cd /repo && /venv/bin/python -B $src/demo.py >/tmp/seed_$id.demo_clean.log 2>&1; echo "exit $?")
+echo "== demo on mutated tree"; (cd $wt && PYTHONPATH=$wt /venv/bin/python -B $src/demo.py >/tmp/seed_$id.demo_mut.log 2>&1; echo "exit $?")
+echo "== demo on clean tree"; (cd /repo && PYTHONPATH=/repo /venv/bin/python -B $src/demo.py >/tmp/seed_$id.demo_clean.log 2>&1; echo "exit $?")
 echo "== patch applies to clean HEAD?"; git -C /repo apply --check $src/patch.diff && echo yes
 for c in $checks; do
   echo "== check $c on mutated tree"
